@@ -73,7 +73,7 @@ vlib.standard_check({
                             "observations_postprocess_threw": t.get("obs_postprocess_threw", 0),
                             "observations_postprocess_threw_all_selections_in_range": t.get("obs_postprocess_threw_all_in_range", 0),
                             "statement_histogram": t.get("hist", {})},
-    "rule": "programs generated from the seed over the AST of C05/Model.lean (declarations, defaults, assignments to whole signals / slices / bits / "
+    "rule": "programs generated from the seed over the AST of C05/Model.lean (declarations, defaults incl. further BitDefault assignments on already assigned signals, assignments to whole signals / slices / bits / "
             "dynamic bits, parts and slices incl. nested selections, Selection forms (All / From / Range / RangeIncl / Slice / Symbol with negative starts and ends), operators, width-less variables from integer literals / zext / oext (UInt and SInt) re-assigned "
             "wider / narrower / equal literals and each other inside and outside IF / ELSE with copies and comparisons, the alias-cache pattern (part vs dynamic slice keys; x.resetNode() + re-initialisation between uses of the same index signals / selections), "
             "ENIF / IF nests (depth 1..4, any order, ELSE branches) around reg() and memory writes whose ENABLE / wrEnable input is observed, IF / ELSE / ELSEIF / two-scope ELSE IF chains that often repeat a condition "
